@@ -121,6 +121,10 @@ func init() {
 			Spec{Kind: "i64", Ret: "errkind", Ignore: append([]string{"copy"}, ign...), IgnoreLHS: []string{"sth"},
 				ErrCalls: map[string]string{"getSignedLogRoot": "rootFails", "signV1TreeHead": "signFails"},
 				Repl:     map[string]string{"err != nil": "signFails", "len(sth.TreeHeadSignature.Signature)": "sigLen"}})},
+		{"checkAuditPath", handlerKernel(h, "checkAuditPath", "checkAuditPath", "(someWrongSize : Bool)", "Bool", "", "true",
+			Spec{Kind: "i64", Ignore: ign, RangeCond: map[string]string{"path": "someWrongSize", "cond:path": "len(node) != sha256.Size"}})},
+		{"marshalGetEntriesResponse", handlerKernel(h, "marshalGetEntriesResponse", "marshalGetEntriesResponse", "", "ErrKind", "", "ErrKind.ok",
+			Spec{Kind: "i64", Ret: "errkind", Ignore: ign, IgnoreLHS: []string{"jsonRsp", "jsonRsp.Entries", "extraData", "treeLeaf"}})},
 		{"MirrorSTHGetter.GetSTH", handlerKernel(sthgo, "MirrorSTHGetter.GetSTH", "mirrorSTHGetterGetSTH", "(rootFails storeFails : Bool)", "ErrKind", "", "ErrKind.ok",
 			Spec{Kind: "i64", Ret: "errkind", Ignore: ign,
 				ErrCalls: map[string]string{"getSignedLogRoot": "rootFails", "sg.st.GetMirrorSTH": "storeFails"}})},
